@@ -53,7 +53,7 @@ def strategy(tier):
             sb, _ = draw(gen.streams(spec, max_rows=10, focus=focus))
         # the process-global comparison tolerances (histogrammar.util) are for ==, never for merge compatibility
         tol = draw(st.sampled_from((0.0, 0.0, 1e-6, 1e-3)))
-        dets = ("none", "none", "none", "copy", "pickle", "reload", "zeroed", "times0")
+        dets = ("none", "none", "none", "copy", "copy", "plus-zero", "pickle", "reload", "zeroed", "times0")
         detours = [draw(st.sampled_from(dets)), draw(st.sampled_from(dets))]
         return {"spec": spec, "variants": variants, "sa": [[r, w] for r, w in sa], "sb": [[r, w] for r, w in sb], "tol": tol, "detours": detours}
 
@@ -155,6 +155,8 @@ def detoured(h, how):
     """The same state reached through a content-preserving detour (every reachable state counts)."""
     if how == "copy":
         return h.copy()
+    if how == "plus-zero":
+        return h.zero() + h
     if how == "pickle":
         import pickle  # noqa: PLC0415
 
